@@ -1,0 +1,71 @@
+//go:build verif
+
+// Contracts for the verif build tag: comment-only, read by /verif/engine (govc).
+package ipset
+
+//@ spec le128(a u128, b u128) bool := a.hi < b.hi || (a.hi == b.hi && a.lo <= b.lo)
+//@ spec lt128(a u128, b u128) bool := a.hi < b.hi || (a.hi == b.hi && a.lo < b.lo)
+//@
+//@ pred sortedLo(sp []span) := forall a int, b int :: {sp[a].lo, sp[b].lo} 0 <= a && a <= b && b < len(sp) ==> le128(sp[a].lo, sp[b].lo)
+//@ pred runMax(sp []span) := forall a int, b int :: {sp[b].hi, sp[a].maxHi} 0 <= b && b <= a && a < len(sp) ==> le128(sp[b].hi, sp[a].maxHi)
+//@ pred maxWit(sp []span) := forall a int :: {sp[a].maxHi} 0 <= a && a < len(sp) ==> exists w int :: 0 <= w && w <= a && sp[w].hi == sp[a].maxHi
+//@ pred wfSpans(sp []span) := sortedLo(sp) && runMax(sp) && maxWit(sp)
+//@ pred inSpan(sp []span, b int, k u128) := 0 <= b && b < len(sp) && le128(sp[b].lo, k) && le128(k, sp[b].hi)
+//@
+//@ func (u128).lessEq
+//@   ensures result == le128(a, b)
+//@
+//@ func compile$1
+//@   requires 0 <= i && i < len(spans) && 0 <= j && j < len(spans)
+//@   ensures result == lt128(spans[i].lo, spans[j].lo)
+//@
+//@ func compile
+//@   modifies elems(spans)
+//@   ensures wfSpans(spans)
+//@   ensures forall b int :: {old(spans[b].lo)} 0 <= b && b < len(spans) ==> exists c int :: {spans[c].lo} 0 <= c && c < len(spans) && spans[c].lo == old(spans[b].lo) && spans[c].hi == old(spans[b].hi)
+//@   ensures forall c int :: {spans[c].lo} 0 <= c && c < len(spans) ==> exists b int :: {old(spans[b].lo)} 0 <= b && b < len(spans) && spans[c].lo == old(spans[b].lo) && spans[c].hi == old(spans[b].hi)
+//@   loop 1 invariant 0 <= i && i <= len(spans)
+//@   loop 1 invariant i == 0 ==> max.hi == 0 && max.lo == 0
+//@   loop 1 invariant i > 0 ==> max == spans[i-1].maxHi
+//@   loop 1 invariant forall a int, b int :: {spans[b].hi, spans[a].maxHi} 0 <= b && b <= a && a < i ==> le128(spans[b].hi, spans[a].maxHi)
+//@   loop 1 invariant forall a int :: {spans[a].maxHi} 0 <= a && a < i ==> exists w int :: 0 <= w && w <= a && spans[w].hi == spans[a].maxHi
+//@
+//@ # ---- C17: membership is exactly "some configured range contains the address"
+//@ spec normAddr(a netip.Addr) netip.Addr := ite(addrIs4In6(a), addrUnmap(a), a)
+//@ spec famOf(s *Set, a netip.Addr) []span := ite(addrIs4(normAddr(a)), s.v4, s.v6)
+//@ spec be32(b [4]byte) uint32 := uint32(b[0])<<24 | uint32(b[1])<<16 | uint32(b[2])<<8 | uint32(b[3])
+//@ spec be64at(b [16]byte, o int) uint64 := uint64(b[o])<<56 | uint64(b[o+1])<<48 | uint64(b[o+2])<<40 | uint64(b[o+3])<<32 | uint64(b[o+4])<<24 | uint64(b[o+5])<<16 | uint64(b[o+6])<<8 | uint64(b[o+7])
+//@ spec keyOf(a netip.Addr) u128 := ite(addrIs4(a), u128{lo: uint64(be32(addrAs4(a)))}, u128{hi: be64at(addrAs16(a), 0), lo: be64at(addrAs16(a), 8)})
+//@ spec ones64(n int) uint64 := ite(n <= 0, uint64(0), ite(n >= 64, ^uint64(0), (uint64(1) << uint(n)) - 1))
+//@
+//@ func ones
+//@   arith bv
+//@   modifies nothing
+//@   ensures result == ones64(n)
+//@
+//@ func key
+//@   arith bv
+//@   modifies nothing
+//@   ensures result == keyOf(a)
+//@
+//@ # first and last address of a prefix: hi = lo | hostmask, for every admissible prefix length
+//@ func bounds
+//@   arith bv
+//@   requires 0 <= prefixBits(p) && prefixBits(p) <= ite(addrIs4(prefixAddr(p)), 32, 128)
+//@   modifies nothing
+//@   ensures lo == keyOf(prefixAddr(p))
+//@   ensures hi.lo == lo.lo | ones64(ite(addrIs4(prefixAddr(p)), 32, 128) - prefixBits(p))
+//@   ensures hi.hi == lo.hi | ones64(ite(addrIs4(prefixAddr(p)), 32, 128) - prefixBits(p) - 64)
+//@
+//@ # a masked prefix's range [lo, lo|mask] is exactly the set of addresses agreeing with lo outside the mask
+//@ lemma range_is_cidr arith bv (lo u128, x u128, host int): 0 <= host && host <= 128 && lo.lo & ones64(host) == 0 && lo.hi & ones64(host-64) == 0 ==> ((le128(lo, x) && le128(x, u128{hi: lo.hi | ones64(host-64), lo: lo.lo | ones64(host)})) <==> (x.hi &^ ones64(host-64) == lo.hi && x.lo &^ ones64(host) == lo.lo))
+//@
+//@ func (*Set).Contains
+//@   requires s != nil && wfSpans(s.v4) && wfSpans(s.v6)
+//@   modifies nothing
+//@   ensures result ==> addrValid(addr) && exists b int :: {famOf(s, addr)[b].hi} inSpan(famOf(s, addr), b, keyOf(normAddr(addr)))
+//@   ensures addrValid(addr) && (exists b int :: {famOf(s, addr)[b].hi} inSpan(famOf(s, addr), b, keyOf(normAddr(addr)))) ==> result
+//@   loop 1 invariant 0 <= i && i <= j && j <= len(spans)
+//@   loop 1 invariant forall a int :: {spans[a].lo} 0 <= a && a < i ==> le128(spans[a].lo, k)
+//@   loop 1 invariant forall a int :: {spans[a].lo} j <= a && a < len(spans) ==> !le128(spans[a].lo, k)
+//@   loop 1 decreases j - i
